@@ -119,6 +119,18 @@ def build_archive(entries, root):
             files.append({"name": nm, "kind": "empty", "mtime": 132223104000000000})
         else:
             files.append({"name": nm, "kind": "file", "data": b"payload-%d" % k, "mtime": 132223104000000000})
+        # hostile attribute words: the kind a reader derives must not open a way around its own checks
+        av = e.get("attrv")
+        if av:
+            kind = files[-1]["kind"]
+            word = {("file", "reparse"): 0x20 | 0x400 | 0x8000 | (0o100644 << 16),       # regular file by unix mode, Windows reparse bit set
+                    ("file", "nounix"): 0x20, ("file", "readonly"): 0x21 | 0x8000 | (0o100444 << 16),
+                    ("file", "fifo"): 0x20 | 0x8000 | (0o010644 << 16), ("file", "reparse-nounix"): 0x20 | 0x400,
+                    ("empty", "reparse"): 0x20 | 0x400 | 0x8000 | (0o100644 << 16), ("empty", "nounix"): 0x20,
+                    ("symlink", "noreparse"): 0x20 | 0x8000 | (0o120777 << 16), ("symlink", "reparse-only"): 0x20 | 0x400,
+                    ("dir", "nounix"): 0x10, ("dir", "unixonly"): 0x8000 | (0o040755 << 16), ("dir", "reparse"): 0x10 | 0x400 | 0x8000 | (0o040755 << 16)}.get((kind, av))
+            if word is not None:
+                files[-1]["attrib"] = word
     raw, _ = write_archive({"files": files, "folders": [{"nfiles": sum(1 for f in files if f.get("data")), "coders": [{"id": "copy"}], "crc": "substream"}]
                             if any(f.get("data") for f in files) else None})
     return raw
